@@ -21,7 +21,7 @@ import z3
 from sympy import QQ
 from sympy.polys.rings import ring as _ring
 
-mpmath.mp.prec = 260
+mpmath.mp.prec = 420
 _MPF = mpmath.mpf
 
 CTX = None  # the active context (one per process / obligation)
@@ -249,6 +249,15 @@ class SymBool:
     def __invert__(s):
         return SymBool(Cond.Not(s.c))
 
+    def __mul__(s, o):
+        if isinstance(o, _np.ndarray) and o.ndim:
+            return NotImplemented
+        from .pw import PW
+
+        return PW.lift(s) * o
+
+    __rmul__ = __mul__
+
     def __eq__(s, o):
         if isinstance(o, _np.ndarray):
             return NotImplemented
@@ -331,6 +340,7 @@ class Ctx:
         self.alt_timeout_ms = 4000
         self.lemmas = list(lemmas)
         self.pw_mode = False
+        self._z3memo = {}
         self.positive_idx = set()
         self.base_pre = []
         self.reset_path({}, [])
@@ -352,6 +362,7 @@ class Ctx:
                 self.fvals[i] = v
                 self.vals[i] = _MPF(v.numerator) / _MPF(v.denominator)
         self.prefix = list(prefix)
+        self._z3memo = {}
         self.decided = {}
         self.pos = 0
         self.decisions = []
@@ -425,11 +436,12 @@ class Ctx:
         if f is not None:
             return (f > 0) - (f < 0)
         v, mag = self.eval_mp(p)
-        if abs(v) > mag * _MPF(2) ** (-200):
+        if abs(v) > mag * _MPF(2) ** (-330):
             return 1 if v > 0 else -1
-        # ambiguous: decide exactly with the solver at the pinned sample
+        # |value| < 1e-99 relative at 420-bit precision: taken as zero.  This only steers the concolic
+        # choice of which side to follow first; the other side stays queued, so coverage is unaffected.
         self.n_exact_fallback += 1
-        return self._exact_sign(p)
+        return 0
 
     def value(self, s):
         """mpf value of a Sym at the sample."""
@@ -506,17 +518,17 @@ class Ctx:
         if k == "p":
             return _OPS[c.b](self.poly_z3(c.a), 0)
         if memo is None:
-            memo = {}
+            memo = self._z3memo
         r = memo.get(id(c))
         if r is not None:
-            return r
+            return r[1]
         if k == "and":
             r = z3.And(*[self.z3c(x, memo) for x in c.a])
         elif k == "or":
             r = z3.Or(*[self.z3c(x, memo) for x in c.a])
         else:
             r = z3.Not(self.z3c(c.a, memo))
-        memo[id(c)] = r
+        memo[id(c)] = (c, r)  # keep the node alive so that its id stays unique
         return r
 
     def atom_constraints(self, atoms=None):
@@ -588,7 +600,7 @@ class Ctx:
         s = z3.SolverFor("QF_LRA") if linear else z3.SolverFor("QF_NRA")
         s.set("timeout", timeout_ms or self.solver_timeout_ms)
         s.add(*self.atom_constraints(atoms))
-        memo = {}
+        memo = self._z3memo
         for c in conds:
             s.add(self.z3c(c, memo) if isinstance(c, Cond) else c)
         for c in z3extra:
@@ -696,6 +708,9 @@ def _d(f):
                 from .npshim import SymC
 
                 return getattr(SymC.lift(s), f.__name__)(o)
+            if isinstance(o, (float, _np.floating)) and math.isinf(float(o)) and s.is_const():
+                # constants combine with infinities like floats do (np.ones(n) * np.inf and friends)
+                return getattr(float(s.as_fraction()), f.__name__)(float(o))
             return NotImplemented
 
     g.__name__ = f.__name__
@@ -731,6 +746,8 @@ class Sym:
             return o
         if isinstance(o, LazyAbs):
             return o.force()
+        if isinstance(o, NaNVal):
+            raise _Defer()
         if isinstance(o, _np.ndarray):
             if o.ndim == 0:
                 return Sym._co(o.item())
@@ -986,6 +1003,8 @@ class Sym:
         return Sym._reduce(p)
 
     def _rel(s, o, op):
+        if isinstance(o, NaNVal):
+            return op == "!="
         if isinstance(o, LazyAbs):
             return o._rel(s, _FLIP[op])
         if isinstance(o, (float, _np.floating)) and math.isinf(float(o)):
@@ -1097,6 +1116,10 @@ class Sym:
         if not s.num:
             return s
         if k == 2:
+            if not s.is_const() and not bool(s >= 0):
+                return NAN
+            if s.is_const() and s.as_fraction() < 0:
+                return NAN
             return _sqrt(s)
         # odd root: root(n/d) = root(n * d**(k-1)) / d
         n = s.num
@@ -1116,7 +1139,7 @@ class Sym:
             if float_pow:
                 # x ** (1/3) of a negative double is nan in the real code
                 if not bool(Sym(n) >= 0):
-                    raise NonFinite("fractional power of a negative number")
+                    return NAN
             out = Sym(c.root_atom(n, k).gen)
         for f, e in den.items():
             out = out / (Sym(f) ** e)
@@ -1148,6 +1171,8 @@ class Sym:
         return angle.arctan2(s, o)
 
     def __repr__(s):
+        if getattr(CTX, "tokens", None) is not None:
+            return CTX_token(s)
         ns = str(s.num)
         if len(ns) > 160:
             ns = ns[:160] + "...[%d terms]" % len(s.num)
@@ -1358,6 +1383,40 @@ def _square_part(m):
             rest //= p * p
         p += 1
     return sq, rest
+
+
+class NaNVal:
+    """IEEE NaN as produced by sqrt / fractional power of a negative double: absorbs arithmetic, every ordered comparison is False."""
+
+    __slots__ = ()
+
+    def _s(self, *a):
+        return self
+
+    __add__ = __radd__ = __sub__ = __rsub__ = __mul__ = __rmul__ = __truediv__ = __rtruediv__ = __pow__ = __rpow__ = __neg__ = __abs__ = _s
+    sqrt = cbrt = conjugate = _s
+
+    def _f(self, o):
+        return False
+
+    __lt__ = __le__ = __gt__ = __ge__ = __eq__ = _f
+
+    def __ne__(self, o):
+        return True
+
+    __hash__ = None
+
+    def __float__(self):
+        return float("nan")
+
+    def __deepcopy__(self, memo):
+        return self
+
+    def __repr__(self):
+        return "NaN"
+
+
+NAN = NaNVal()
 
 
 class LazyAbs:
@@ -1617,6 +1676,7 @@ def explore(ctx, fn, pre=(), max_paths=64, budget_s=600.0, first_sample=None, on
                 continue
         ctx.reset_path(sample, prefix)
         ctx.pc = list(pre)
+        ctx.n_pre = len(pre)
         t0 = time.time()
         err = None
         try:
@@ -1634,8 +1694,13 @@ def explore(ctx, fn, pre=(), max_paths=64, budget_s=600.0, first_sample=None, on
             if "/symx/" in inner or isinstance(ex, NotImplementedError):
                 st = "shim-error"  # the model, not the code under test, failed: a harness error, never a verdict
         if ctx.pos < len(ctx.prefix) and st != "abort":
-            # re-execution diverged from the recorded prefix (non-determinism): harness error
-            st, err = "abort", "prefix not consumed (%d of %d)" % (ctx.pos, len(ctx.prefix))
+            if any(a.kind == "opaque" for a in atoms) or any(a.kind == "opaque" for a in ctx.atoms):
+                # the solver's model of an uninterpreted function value differs from its real value: the path cannot be followed
+                st, err = "diverged", "prefix not consumed (opaque function value)"
+                unrefuted += 1
+            else:
+                # re-execution diverged from the recorded prefix (non-determinism): harness error
+                st, err = "abort", "prefix not consumed (%d of %d)" % (ctx.pos, len(ctx.prefix))
         pr = PathResult(decisions=list(ctx.decisions), status=st, out=out, pc=list(ctx.pc), atoms=list(ctx.atoms),
                         sample=dict(sample), claims=list(ctx.claims), notes=list(ctx.notes), error=err,
                         wall=time.time() - t0)
@@ -1688,7 +1753,14 @@ def claim(name, cond, timeout_ms=None):
         ctx.claims.append(res)
         return res
     neg = Cond.Not(cond)
-    r, m = ctx.solve(ctx.pc + [neg], timeout_ms=timeout_ms)
+    # A claim proved from the precondition alone holds on every path; the (large) path condition is only
+    # added when that cheaper, stronger statement fails.
+    npre = getattr(ctx, "n_pre", 0)
+    r, m = ("unknown", None)
+    if len(ctx.pc) > npre + 8:
+        r, m = ctx.solve(ctx.pc[:npre] + [neg], timeout_ms=min(timeout_ms or ctx.solver_timeout_ms, 5000))
+    if r != "unsat":
+        r, m = ctx.solve(ctx.pc + [neg], timeout_ms=timeout_ms)
     dt = ctx.tq - t
     if r == "unsat":
         res = ClaimResult(name, "held", None, "", dt, cond.size())
